@@ -508,24 +508,39 @@ def Mem.commit (m : Mem) (ft : Nat) : Mem × Out :=
   | some m' => (m', .ok)
   | none => (m, .err "commit-failed")
 
+/-- `commit_skip_indexes_inner` (repair 7cd4b84): the batch's embeddings are folded into the in-memory
+    vector index (surviving entries of active frames, then the new ones); nothing is written -/
+def Mem.foldEmbs (m : Mem) (embs : List VecEnt) : Mem :=
+  if embs.isEmpty || !m.vecEnabled then m
+  else { m with vec := some ((m.vec.getD []).filter (fun e => isActive m.frames e.id) ++ embs) }
+
+/-- the index manifests `commit_skip_indexes` clears -/
+def Mem.clearIndexManifests (m : Mem) : Mem :=
+  { m with tantivyDirty := false, footer := m.dataEnd, time := none, pVec := none, tantivySegs := false,
+           pCards := none, pSketch := [] }
+
 /-- `commit_skip_indexes()` -/
 def Mem.commitSkipIndexes (m : Mem) : Mem × Out :=
   if m.pending.isEmpty && !m.dirty then (m, .ok) else
   match applyRecords m m.pending false with
   | none => ({ m with tantivyDirty := false }, .err "commit-failed")
-  | some (m1, _delta) =>
-    ({ m1 with
-        tantivyDirty := false
-        footer := m1.dataEnd
-        time := none
-        pVec := none
-        tantivySegs := false
-        pCards := none
-        pSketch := [] }.checkpoint, .ok)
+  | some (m1, delta) => ((m1.foldEmbs delta.embs).clearIndexManifests.checkpoint, .ok)
+
+/-- ids `finalize_indexes` generates a sketch for (repair 7cd4b84): active frames with index text and
+    no entry yet, in frame order -/
+def sketchGaps (frames : List Frame) (sketch : List Nat) : List Nat :=
+  ((frames.filter (fun f => f.status == .active && f.idx)).map (·.id)).filter (fun id => !sketch.contains id)
+
+/-- the sketch part of `finalize_indexes`: missing sketches are generated, the track is persisted -/
+def Mem.fillSketches (m1 : Mem) : Mem :=
+  { m1 with
+    sketch := if m1.lexEnabled then m1.sketch ++ sketchGaps m1.frames m1.sketch else m1.sketch
+    pSketch := if (if m1.lexEnabled then m1.sketch ++ sketchGaps m1.frames m1.sketch else m1.sketch).isEmpty
+               then m1.pSketch else (if m1.lexEnabled then m1.sketch ++ sketchGaps m1.frames m1.sketch else m1.sketch) }
 
 /-- `finalize_indexes()` -/
 def Mem.finalizeIndexes (m : Mem) (ft : Nat) : Mem × Out :=
-  (m.rebuildIndexes [] [] ft, .ok)
+  ((m.rebuildIndexes [] [] ft).fillSketches, .ok)
 
 /-! ## put / update / delete -/
 
@@ -645,10 +660,34 @@ def Mem.addCards (m : Mem) (nc pseq : Nat) : Mem :=
   { m with cards := m.cards ++ List.replicate nc pseq
            enrRecs := if m.enrRecs.contains pseq then m.enrRecs else m.enrRecs ++ [pseq] }
 
-/-- second half of `put_internal`: capacity check, WAL appends, instant index, enrichment queue,
-    automatic checkpoint, triplet cards -/
+/-- stored bytes the next commit appends at the data cursor for one pending record -/
+def Entry.freshLen : Entry → Nat
+  | .insert e => if e.reuseFrom.isNone then e.len else 0
+  | _ => 0
+
+/-- `pending_payload_bytes`: stored payload bytes of the pending Insert records (reset with every WAL
+    checkpoint, i.e. exactly when `pending` is emptied) -/
+def pendingPayloadBytes : List (Nat × Entry) → Nat
+  | [] => 0
+  | r :: rs => r.2.freshLen + pendingPayloadBytes rs
+
+def chunkLenSum : List ChunkArg → Nat
+  | [] => 0
+  | c :: cs => c.len + chunkLenSum cs
+
+/-- the exact capacity check of `put_internal` right before the WAL appends (repair ed05539):
+    `max(cached_payload_end, data_end) + pending_payload_bytes + stored bytes of this put > limit`;
+    skipped for a put that appends nothing (payload-less update without chunks) -/
+def Mem.overCap (m : Mem) (a : PutArgs) (reuse : Option Nat) : Bool :=
+  (reuse.isNone || !a.chunks.isEmpty) &&
+  decide (m.base + max m.payloadEnd m.dataEnd + pendingPayloadBytes m.pending +
+          ((if reuse.isNone then a.len else 0) + chunkLenSum a.chunks) > m.capacityLimit)
+
+/-- second half of `put_internal`: the two capacity checks, WAL appends, instant index, enrichment
+    queue, automatic checkpoint, triplet cards -/
 def Mem.putTail (m : Mem) (a : PutArgs) (supersedes reuse : Option Nat) (t : Trace) : Mem × Out :=
   if m.base + m.payloadEnd + a.plen > m.capacityLimit then (m, .err "capacity") else
+  if m.overCap a reuse then (m, .err "capacity") else
   ((((m.appendPut a supersedes reuse).afterAppend t).addCards a.nc (m.seq + 1)), .seq (m.seq + 1))
 
 /-- `enable_vec()` as `put_internal` calls it for the first embedded put (its effects survive a later
@@ -901,11 +940,12 @@ deriving Repr, Inhabited
 def Mem.resetWal (m : Mem) : Mem :=
   { m with pending := [], seq := 0, pendingInserts := m.pendingInserts, dirty := false, tantivyDirty := false }
 
-/-- `apply_pending_rebuilds` of the doctor: a requested vector rebuild forgets manifest and in-memory
-    index first (so `rebuild_indexes` writes an EMPTY vector index), otherwise an existing index is
-    loaded to be preserved; then `rebuild_indexes(&[], &[])` and `reset_wal` -/
+/-- `apply_pending_rebuilds` of the doctor (repair 842ec3b): an existing vector index is loaded so that
+    `rebuild_indexes` keeps its embeddings (a requested vector rebuild only forgets the manifest); then
+    `rebuild_indexes(&[], &[])` and `reset_wal` -/
 def Mem.doctorRebuild (m2 : Mem) (rv : Bool) (ft : Nat) : Mem :=
-  ((if rv then { m2 with vecEnabled := true, vecManifest := false, vec := none, pVec := none }
+  ((if rv then { m2 with vecEnabled := true, vecManifest := false,
+                         vec := if m2.vec.isNone && m2.vecManifest then m2.pVec else m2.vec }
     else if m2.vecEnabled && m2.vec.isNone && m2.vecManifest then { m2 with vec := m2.pVec }
     else m2).rebuildIndexes [] [] ft).resetWal
 
@@ -921,13 +961,7 @@ def Mem.doctorStage2 (m2 : Mem) (any rv : Bool) (ftB : Nat) : Mem :=
     again afterwards): open (with WAL replay), optional vacuum, then — when any rebuild was requested —
     `apply_pending_rebuilds` followed by `reset_wal`.  The frame table is only touched by the vacuum. -/
 def Mem.doctor (m : Mem) (vac rt rl rv : Bool) (ftDrop ftA ftB ftOpen : Nat) : Mem × Out :=
-  if (m.dropHandle ftDrop).pending.isEmpty then
-    ((((m.doctorStage1 vac ftDrop ftA ftB).doctorStage2 (rt || rl || rv) rv ftB).dropHandle ftB).openFrom ftOpen, .ok)
-  else
-    -- WAL records left behind by a non-dirty handle (the Lex record of vacuum / finalize / an open-time
-    -- flush): the doctor's planner hits `debug_assert!(probe.wal_pending == 0)` (debug profile, the one
-    -- the harness and the repo's test-suite use) and does nothing; the next open replays the WAL
-    ((m.dropHandle ftDrop).openFrom ftOpen, .ok)
+  ((((m.doctorStage1 vac ftDrop ftA ftB).doctorStage2 (rt || rl || rv) rv ftB).dropHandle ftB).openFrom ftOpen, .ok)
 
 def step (m : Mem) : Op → Mem × Out
   | .create => (Mem.create, .ok)
